@@ -115,7 +115,7 @@ func Ifs(fn *ssa.Function) []IfInfo {
 		if i, ok := b.Instrs[len(b.Instrs)-1].(*ssa.If); ok {
 			a, pol := Decompose(i.Cond)
 			out = append(out, IfInfo{If: i, Atom: a, Pol: pol})
-			if ph, neg, th := threadable(b); th {
+			if ph, neg, nilcmp, th := threadableKind(b); th {
 				for k, pred := range b.Preds {
 					if k >= len(ph.Edges) {
 						break
@@ -125,6 +125,14 @@ func Ifs(fn *ssa.Function) []IfInfo {
 						continue
 					}
 					if _, isPhi := v.(*ssa.Phi); isPhi {
+						continue
+					}
+					if nilcmp {
+						if KnownNonNil(v) {
+							continue
+						}
+						// entering from pred the branch tests `v == nil`
+						out = append(out, IfInfo{If: i, Atom: Atom{Op: token.EQL, X: v, Y: nilOf(v)}, Pol: !neg, Via: pred})
 						continue
 					}
 					va, vpol := Decompose(v)
@@ -262,3 +270,5 @@ func IsDoneChan(v ssa.Value) (ctx ssa.Value, ok bool) {
 	}
 	return nil, false
 }
+
+func nilOf(v ssa.Value) ssa.Value { return ssa.NewConst(nil, v.Type()) }
